@@ -144,6 +144,11 @@ func (n *LocalNode) FindSuccessor(key uint64) (chord.VNode, error) {
 	}
 	// find next in ring according to finger table
 	closest := n.closestPrecedingNode(key)
+	if closest.ID() == n.ID() {
+		// no known finger precedes the key (e.g. finger table not yet repaired after joining):
+		// never forward to ourselves, the successor is the best known next hop
+		closest = succ
+	}
 	// contact possibly remote node
 	return closest.FindSuccessor(key)
 }
